@@ -28,6 +28,7 @@ import (
 	"github.com/yuin/goldmark/extension"
 	east "github.com/yuin/goldmark/extension/ast"
 	"github.com/yuin/goldmark/parser"
+	"github.com/yuin/goldmark/renderer"
 	"github.com/yuin/goldmark/text"
 	"github.com/yuin/goldmark/util"
 )
@@ -184,8 +185,9 @@ type fnRun struct {
 	errs   []string
 }
 
-func fnParse(prefix string, src []byte) *fnRun {
-	md := fnMarkdown(prefix)
+func fnParse(prefix string, src []byte) *fnRun { return fnParseWith(fnMarkdown(prefix), src) }
+
+func fnParseWith(md goldmark.Markdown, src []byte) *fnRun {
 	pc := parser.NewContext()
 	doc := md.Parser().Parse(text.NewReader(src), parser.WithContext(pc))
 	r := &fnRun{d: fnData(pc), doc: doc}
@@ -416,6 +418,9 @@ func fnOracle(prefix string, src []byte, h fnHTML, r *fnRun, itemSrc []int) []Or
 func linkStr(i, rc, ri int) string { return fmt.Sprintf("%d.%d.%d", i, rc, ri) }
 
 func implFootnote(c Case) ImplResult {
+	if c.Op == "nested" {
+		return implFootnoteNested(c)
+	}
 	var res ImplResult
 	if len(c.Args) < 4 {
 		res.Out = "bad-case"
@@ -488,6 +493,156 @@ func implFootnote(c Case) ImplResult {
 	}
 	return res
 }
+
+
+// ---------- op `nested` (oracle only): a render of document B on the SAME Markdown starts while document A is inside its
+// footnote list (a node renderer that renders an embedded document), ids prefixed per document by
+// WithFootnoteIDPrefixFunction. Every rendered document - A and B - must satisfy C16 with its own prefix. ----------
+
+var fnNestKind = gast.NewNodeKind("VerifNestedRender")
+
+type fnNestNode struct{ gast.BaseInline }
+
+func (n *fnNestNode) Kind() gast.NodeKind         { return fnNestKind }
+func (n *fnNestNode) Dump(src []byte, level int) {}
+
+type fnNestState struct {
+	md    goldmark.Markdown
+	srcB  []byte
+	htmlB string
+	runB  *fnRun
+	done  bool
+	errs  []string
+}
+
+var fnNestCur *fnNestState // set under fnNestMu for the duration of one case
+var fnNestMu sync.Mutex
+var fnNestMD goldmark.Markdown
+
+type fnNestTransformer struct{}
+
+func (fnNestTransformer) Transform(doc *gast.Document, reader text.Reader, pc parser.Context) {
+	if !fnNestWant {
+		return
+	}
+	fnNestWant = false // only the outer document
+	_ = gast.Walk(doc, func(n gast.Node, entering bool) (gast.WalkStatus, error) {
+		if f, ok := n.(*east.Footnote); ok && entering {
+			if para := f.FirstChild(); para != nil && para.Type() == gast.TypeBlock && !para.IsRaw() {
+				nn := &fnNestNode{}
+				if fc := para.FirstChild(); fc != nil {
+					para.InsertBefore(para, fc, nn)
+				} else {
+					para.AppendChild(para, nn)
+				}
+				return gast.WalkStop, nil
+			}
+		}
+		return gast.WalkContinue, nil
+	})
+}
+
+type fnNestRenderer struct{}
+
+func (fnNestRenderer) RegisterFuncs(reg renderer.NodeRendererFuncRegisterer) {
+	reg.Register(fnNestKind, func(w util.BufWriter, source []byte, n gast.Node, entering bool) (gast.WalkStatus, error) {
+		st := fnNestCur
+		if entering && st != nil && !st.done {
+			st.done = true
+			rb := fnParseWith(st.md, st.srcB)
+			rb.doc.OwnerDocument().Meta()["p"] = "b-"
+			var buf bytes.Buffer
+			if err := st.md.Renderer().Render(&buf, st.srcB, rb.doc); err != nil {
+				st.errs = append(st.errs, "nested-render-error:"+err.Error())
+			}
+			rb.html = buf.String()
+			st.runB, st.htmlB = rb, rb.html
+		}
+		return gast.WalkContinue, nil
+	})
+}
+
+func fnNestMarkdown() goldmark.Markdown {
+	if fnNestMD == nil {
+		fnNestMD = goldmark.New(
+			goldmark.WithExtensions(extension.Table, extension.NewFootnote(extension.WithFootnoteIDPrefixFunction(func(n gast.Node) []byte {
+				if p, ok := n.OwnerDocument().Meta()["p"].(string); ok {
+					return []byte(p)
+				}
+				return nil
+			}))),
+			goldmark.WithParserOptions(
+				parser.WithInlineParsers(util.Prioritized(&fnWrapParser{inner: extension.NewFootnoteParser()}, 100)),
+				parser.WithASTTransformers(util.Prioritized(fnProbeTransformer{}, 998), util.Prioritized(fnNestTransformer{}, 1000)),
+			),
+			goldmark.WithRendererOptions(renderer.WithNodeRenderers(util.Prioritized(fnNestRenderer{}, 500))),
+		)
+	}
+	return fnNestMD
+}
+
+func fnItemSrc(r *fnRun) []int {
+	var itemSrc []int
+	_ = gast.Walk(r.doc, func(n gast.Node, entering bool) (gast.WalkStatus, error) {
+		if v, ok := n.(*east.Footnote); ok && entering {
+			s := -1
+			for i, df := range r.d.defs {
+				if df == v {
+					s = i
+				}
+			}
+			itemSrc = append(itemSrc, s)
+		}
+		return gast.WalkContinue, nil
+	})
+	return itemSrc
+}
+
+func implFootnoteNested(c Case) ImplResult {
+	res := ImplResult{NoModel: true}
+	srcA, srcB := unhx(c.Args[0]), unhx(c.Args[1])
+	fnNestMu.Lock()
+	defer fnNestMu.Unlock()
+	md := fnNestMarkdown()
+	st := &fnNestState{md: md, srcB: srcB}
+	fnNestCur = st
+	defer func() { fnNestCur = nil }()
+	// A: parsed with the marker that makes the transformer plant the nested-render node
+	pc := parser.NewContext()
+	_ = pc
+	ra := fnParseNest(md, srcA)
+	ra.doc.OwnerDocument().Meta()["p"] = "a-"
+	var buf bytes.Buffer
+	if err := md.Renderer().Render(&buf, srcA, ra.doc); err != nil {
+		st.errs = append(st.errs, "render-error:"+err.Error())
+	}
+	ra.html = buf.String()
+	res.Fails = append(res.Fails, fnOracle("a-", srcA, fnExtract(ra.html), ra, fnItemSrc(ra))...)
+	if st.runB != nil {
+		res.Fails = append(res.Fails, fnOracle("b-", srcB, fnExtract(st.htmlB), st.runB, fnItemSrc(st.runB))...)
+	}
+	for i := range res.Fails {
+		res.Fails[i].Detail = "document rendered while another render on the same Markdown was inside its footnote list (per-document id prefixes a- / b-): " + res.Fails[i].Detail
+	}
+	res.Out = fmt.Sprintf("nested=%v itemsA=%d", st.done, len(fnExtract(ra.html).items))
+	if st.done && len(fnExtract(ra.html).items) > 1 {
+		res.Key = c.Args[0] + "/" + c.Args[1]
+	}
+	if len(st.errs) > 0 {
+		res.Out = "probe-error:" + strings.Join(st.errs, "|") + ";" + res.Out
+	}
+	return res
+}
+
+// fnParseNest: as fnParseWith, with Meta()["nest"] set before the AST transformers run (a probe paragraph transformer
+// cannot reach the document, so the flag travels in a package variable read by a transformer at priority 997)
+func fnParseNest(md goldmark.Markdown, src []byte) *fnRun {
+	fnNestWant = true
+	defer func() { fnNestWant = false }()
+	return fnParseWith(md, src)
+}
+
+var fnNestWant bool
 
 // ---------- generator ----------
 
@@ -641,6 +796,17 @@ func genFootnote(tier string, rng *RNG, emit func(Case)) {
 	for i := 0; i < nrand; i++ {
 		emit(fnCase(fnPrefixes[rng.Intn(len(fnPrefixes))], g.doc()))
 	}
+	// nested renders with per-document id prefixes (oracle only)
+	nestA := []string{"a[^1] b[^2] c[^1]\n\n[^1]: one\n[^2]: two [^1]\n", "x[^a]\n\n[^a]: p\n\n    q\n[^b]: r\n\ny[^b] z[^a]\n"}
+	nestB := []string{"k[^1]\n\n[^1]: other\n", "m[^x] n[^y]\n\n[^y]: why\n[^x]: ex\n", "no footnotes here\n"}
+	for _, a := range nestA {
+		for _, b := range nestB {
+			emit(Case{Op: "nested", Args: []string{hx([]byte(a)), hx([]byte(b))}})
+		}
+	}
+	for i := 0; i < nrand/100; i++ {
+		emit(Case{Op: "nested", Args: []string{hx(g.doc()), hx(g.doc())}})
+	}
 }
 
 func init() {
@@ -648,7 +814,7 @@ func init() {
 		Name: "footnote",
 		Rule: "every document made of <= N tokens from {[^a], [^b], ![i[^a]](u), ![i[^b]](u), definition of a, definition of b, paragraph break, text} " +
 			"+ random documents (references in emphasis, links, images, tables, headings, other footnotes, unreferenced and duplicate definitions, definitions in containers, 4 id prefixes); " +
-			"non-trivial = at least one footnote item rendered; distinct = distinct (ids, hrefs, numbers, link counters) outputs",
+			"+ op nested (oracle only): a second document rendered on the same Markdown while the first is inside its footnote list, per-document id prefixes through WithFootnoteIDPrefixFunction; non-trivial = at least one footnote item rendered; distinct = distinct (ids, hrefs, numbers, link counters) outputs",
 		Gen:        genFootnote,
 		Impl:       implFootnote,
 		Exhaustive: true,
